@@ -886,11 +886,36 @@ def table_check(run):
     run.obligation('Gen_Fsm.allowed equals FSM.transition (imported class) on all 36 state pairs', ok, detail)
 
 
+def loop_gap(run, tier):
+    """C12 tie (C12's theorems take the loop gap delta as a hypothesis): the longest virtual-time gap between two
+    consultations of the timers while 5 000 UPDATEs are being sent, with a writer that flows and one that blocks"""
+    from harness import hpeer
+
+    rows = []
+    try:
+        for hold in (3, 9, 30, 90):
+            for block in ((0.0, 2.0) if tier == 'quick' else (0.0, 2.0, float(hold))):
+                rows.append(hpeer.measure_loop_gap(hold, 5000, block))
+        ok = all(r['updates_written'] >= 5000 and r['max_gap_check_ka_s'] is not None for r in rows)
+        detail = str(rows)[:600]
+    except Exception as exc:
+        ok, detail = False, f'{type(exc).__name__}: {exc}'
+    run.coverage['loop_gap_delta_measured_s'] = {
+        'what': 'max virtual-time gap between consecutive calls of ReceiveTimer.check_ka / KA.send_if_needed in Peer._main while a batch '
+                'of 5000 one-route UPDATEs is sent (25 per iteration); block_s: one write of the batch blocks that long (peer not reading)',
+        'rows': rows,
+        'delta_free_writer_s': max((r['max_gap_check_ka_s'] for r in rows if not r['block_s']), default=None),
+        'delta_blocked_writer': 'block_s + 0.1: the loop does not consult its timers while a write is blocked',
+    }
+    run.obligation('loop gap measured on the rig for hold times 3, 9, 30, 90 (C12 hypothesis delta)', ok, detail)
+
+
 def check(tier, seed):
     run = Run('C05', tier, seed)
     common.standard_build(run, ['T2'])
     table_check(run)
     campaign(run, tier, seed, ('C05',))
+    loop_gap(run, tier)
     run.trusted = TRUSTED
     run.assumptions = ASSUMPTIONS
     return run.finish(checker_cmd='cd /verif/coq && coqc -Q . ExaV props/Prop_C05.v')
